@@ -12,6 +12,8 @@ import (
 
 	ct "github.com/google/certificate-transparency-go"
 	"github.com/google/certificate-transparency-go/scanner"
+	"github.com/google/certificate-transparency-go/trillian/migrillian/configpb"
+	"github.com/google/trillian/crypto/keyspb"
 	"github.com/google/trillian"
 	"google.golang.org/grpc"
 	"google.golang.org/grpc/codes"
@@ -142,4 +144,30 @@ func Harness_C20_retry() {
 		vAssert(err != nil, "fatal error or missing reply is reported")
 		vReach("aborted")
 	}
+}
+
+// Harness_C20_counts: fetcher / submitter counts of a configuration: whatever the configured
+// numbers, a configuration that validation accepts runs with at least one fetcher and at least one
+// submitter (zero means the default of one). With no fetcher a pass would report success without
+// copying anything; with no submitter it would never finish.
+//
+//verif:opt maxpaths=400 reach=accepted,rejected
+func Harness_C20_counts() {
+	cfg := &configpb.MigrationConfig{SourceUri: "https://log.example/", PublicKey: &keyspb.PublicKey{Der: []byte{1}}, LogId: 7, BatchSize: 10,
+		IdentityFunction: configpb.IdentityFunction_SHA256_LEAF_INDEX,
+		NumFetchers:      vI32("num-fetchers"), NumSubmitters: vI32("num-submitters")}
+	if err := ValidateMigrationConfig(cfg); err != nil {
+		vReach("rejected")
+		return
+	}
+	opts := OptionsFromConfig(cfg)
+	vAssert(opts.ParallelFetch >= 1, "an accepted configuration runs at least one fetcher")
+	vAssert(opts.Submitters >= 1, "an accepted configuration runs at least one submitter")
+	if cfg.NumFetchers > 0 {
+		vAssert(opts.ParallelFetch == int(cfg.NumFetchers), "the configured number of fetchers is used")
+	}
+	if cfg.NumSubmitters > 0 {
+		vAssert(opts.Submitters == int(cfg.NumSubmitters), "the configured number of submitters is used")
+	}
+	vReach("accepted")
 }
